@@ -26,13 +26,14 @@ CLAIMED = {
 CLAIMED["C17"] = {
     "text": "Lean theorems about the model of str::lines/StringBuffer/CellBuffer::from: for every CR-free document "
             "the drawn part yields the same cells and quoted texts after LF->CRLF conversion (lines_crlf) and after "
-            "appending any number of blank lines; the legend's line terminator consumes CRLF as one unit. Trailing "
-            "blanks inside rows and the whole legend grammar are covered by the correspondence (front-end dump of "
+            "appending any number of blank lines; trailing blanks of the rows (no quote, white space, one column each: spaces "
+            "and tabs) change neither the cells nor the quoted texts (rows_trailing_blanks: the quote parser finds the same "
+            "segments over row ++ blanks, the copy loop appends them, the cell map skips them); the legend's line terminator "
+            "consumes CRLF as one unit. The whole legend grammar is covered by the correspondence (front-end dump of "
             "model vs implementation on every variant) and by the property's oracle (parsed output of each variant "
             "equals the base document's) on the implementation.",
     "note": "Trusted: Lean kernel; hand-written model of lines/StringBuffer/legend grammar validated by correspondence; "
-            "theorems are about the front end (the rest of the conversion is a function of its result); trailing "
-            "blanks per row not yet a theorem.",
+            "theorems are about the front end (the rest of the conversion is a function of its result).",
     "technique": "Lean 4 proof over executable model + differential correspondence (front end) + variant oracle on implementation",
     "design_ref": "5 (C17)",
 }
@@ -72,10 +73,14 @@ CLAIMED["C18"] = {
     "text": "Lean theorems about svgRoot: children = style? ++ defs? ++ backdrop? ++ geometry with geometry a function "
             "of fragments and scale only; root attributes; an overridden size changes only root and backdrop "
             "dimensions; the style element depends on settings only through the base sheet; the compressed renderer "
-            "writes no indentation. Byte-level back-end correspondence over all switch combinations, random style "
+            "writes no indentation. The base sheet itself is TRANSLATED from the jss! block of CellBuffer::style on every run "
+            "(Gen/StyleSheet): the model renders it from the regenerated rules and the settings, byte for byte the "
+            "implementation's; every setting is named by some rule and a rule that names no changed setting is rendered the same "
+            "(every_setting_reaches_the_sheet, rule_ignores_unmentioned_settings). Byte-level back-end correspondence over all switch combinations, random style "
             "strings, override sizes and entry points; oracle on the implementation compares all 8 switch combinations, "
             "changed colours/fonts, override sizes, to_svg vs pretty vs compressed.",
-    "note": "Trusted: Lean kernel; base style sheet captured from the implementation (jss! macro not modelled); "
+    "note": "Trusted: Lean kernel; the whole-document model takes the captured sheet (so hostile settings strings go through the "
+            "implementation's own escape), the translated sheet is compared with it for plain settings strings; "
             "pretty/compressed equivalence judged on parsed documents (expat), not proved.",
     "technique": "Lean 4 proof over executable model of the root/serializer + byte-level correspondence + differential oracle across settings",
     "design_ref": "5 (C18)",
@@ -176,11 +181,14 @@ CLAIMED["C10"] = {
             "merge loop (restriction to a class commutes with merge_recursive, via iterated-pass fixpoint uniqueness), its "
             "instance for spans (no merge across the gap), and the span-by-span structure of all later stages. Corollary "
             "juxtaposition_is_union (with C06's whole-pipeline translation theorem): A next to B moved by (k, n) gives the "
-            "fragments of A plus the fragments of B moved by (k, n). End-to-end "
+            "fragments of A plus the fragments of B moved by (k, n). The last stage only reorders: for tag-free fragments the "
+            "nodes fragments_to_node emits are a permutation of the nodes of the fragments (the containment forest holds "
+            "exactly the fragments it was built from and into_nodes emits each once: last_stage_only_reorders, "
+            "last_stage_respects_permutations), so the multiset statement reaches the document's elements. End-to-end "
             "byte correspondence on juxtaposed diagrams; the union oracle (elements of svg(A+B) = svg(A) + shifted svg(B), "
             "canvas covers both) runs on the implementation.",
-    "note": "Trusted: Lean kernel; correspondence; the containment forest (document order, tags) is outside the theorem "
-            "(inputs tag-free; oracle compares multisets); the theorem assumes the three runs do not panic (C01).",
+    "note": "Trusted: Lean kernel; correspondence; document order is outside the theorems (multisets; inputs tag-free); "
+            "the endorsement theorem assumes the three runs do not panic (C01).",
     "technique": "Lean 4 proof (locality of the greedy merge loop, multiset union at the endorsement stage) + byte-level end-to-end correspondence + union oracle",
     "design_ref": "5 (C10)",
 }
@@ -250,7 +258,8 @@ CLAIMED["C14"] = {
 }
 CLAIMED["C16"] = {
     "text": "Lean theorems about the pom grammar model: an entry 'name = {decl}' with identifier name and brace-free "
-            "declaration parses to (name, decl) whatever follows; legend CSS is '.svgbob .name{ decl }' joined by newlines in "
+            "declaration parses to (name, decl) whatever follows; a legend of ANY number of such entries, one per line, parses to "
+            "exactly those entries in order (legend_roundtrip: induction through the model of pom's list loop, fuel adequate); legend CSS is '.svgbob .name{ decl }' joined by newlines in "
             "order; with an accepted legend only the text before the header is drawn, a rejected legend is drawn entirely. "
             "About the containment forest: a tag that fits a shape and none of its children becomes that shape's classes and "
             "is not kept; a child that encloses it wins (innermost); other text is kept; a tag fitting nothing is not consumed. "
